@@ -1122,7 +1122,10 @@ class Emitter:
             cx.calls.add(pname)
             return pad + 'VB_WAIT(&%s, %s(%s));\n' % (cvt, pname, ', '.join(['self'] + free))
         if e[0] == 'throw':
-            t, _ = self.ex(e[1], cx)
+            if e[1] is None:
+                t = 'vb_caught'        # 'throw;' re-raises the exception the enclosing handler caught
+            else:
+                t, _ = self.ex(e[1], cx)
             return pad + '{ vb_exc = %s; %s }\n' % (t, self.exc_action(cx)[1:-1].strip())
         if e[0] == 'delete':
             t, ty = self.ex(e[1], cx)
